@@ -26,13 +26,15 @@ def determinism(props, runs=500, seed=7):
     PYTHONHASHSEED, must give identical event-log digests"""
     bad = 0
     for p in props:
+        bad0 = bad
         ref, l0 = digest(p, runs, 0, 16, seed)
         for hs, jobs in ((0, 16), (0, 1), (1, 16), (4242, 3)):
             d, l1 = digest(p, runs, hs, jobs, seed)
             if d != ref:
                 bad += 1
                 print("NON-DETERMINISTIC %s: %s vs %s" % (p, l0, l1))
-        print("determinism %s ok: %d runs x 5 executions (hash seeds 0/1/4242, 1/3/16 workers) %s" % (p, runs, ref[:16]))
+        if bad == bad0:
+            print("determinism %s ok: %d runs x 5 executions (hash seeds 0/1/4242, 1/3/16 workers) %s" % (p, runs, ref[:16]))
     return bad
 
 
